@@ -344,6 +344,7 @@ def run(ctx):
         for a in ACTIONS:
             if cov.get(a, 0) == 0:
                 raise vlib.ToolError(f"action {a} of Csv.tla was never taken")
+        ctx.set("tlc_action_coverage", {a: cov[a] for a in ACTIONS})
     cases = res.cases
     if len(cases) < 1000:
         raise vlib.ToolError("Csv emitted too few cases")
@@ -407,8 +408,9 @@ def run(ctx):
     if t == "quick":
         rng.shuffle(passing)
         passing = passing[:500]
-    step = shell[:30] + failing[:40] + passing[:30]
-    rest = shell[30:] + failing[40:] + passing[30:] + extras_ok
+    a, b, c3 = (30, 40, 30) if t == "quick" else (300, 800, 400)
+    step = shell[:a] + failing[:b] + passing[:c3]
+    rest = shell[a:] + failing[b:] + passing[c3:] + extras_ok
     judged = step + rest
     verdicts, tres = tlc_judge(ctx, [(c, f, sd["chars"]) for c, f, sd, _, _ in judged], opened, "outputs", stepwise=len(step))
     ctx.tlc_stats(tres, f"CsvTrace: {len(judged)} real outputs (formatter and shell) read by the reference machines, {len(step)} of them one state per character")
